@@ -189,7 +189,8 @@ func checkC01(c *Ctx) {
 		"G2: WaitGroup.Launch/DoTimes/Add/StartGroup count a worker before it starts, Done is the deferred PostHook of the started operation",
 		"X5/PS1: ChanSend.Write is the only send site; its blocking arm cannot drop an item (no default), Read's blocking arm likewise",
 		"X1: every worker loop drops exactly the skipped element and goes on",
-		"E8: the worker-group classification never aborts the group on a plain io.EOF or a skip (in-flight items of the other workers are not dropped)")
+		"E8: the worker-group classification never aborts the group on a plain io.EOF or a skip (in-flight items of the other workers are not dropped)",
+		"P4: a worker never cancels the group's context on a non-error path", "P5: Split's outputs are distinct iterators", "V2: validation leaves at least one worker")
 	c.R.NotCov = append(c.R.NotCov, "equality of the output and input multisets as values", "input order for a single worker / Buffer", "the semantics of Go channels themselves")
 	ruleP1(c, pipePkgs, 11)
 	ruleP2(c, pipePkgs, 15)
@@ -200,15 +201,20 @@ func checkC01(c *Ctx) {
 	// the classification decides whether in-flight items survive: a plain io.EOF from one
 	// worker must stop that worker only (not abort the group), skip must continue
 	ruleE8(c)
+	ruleP4(c, pipePkgs, 6)
+	ruleP5(c)
+	ruleV2(c)
 }
 
 func checkC02(c *Ctx) {
 	c.R.Clauses = append(c.R.Clauses,
 		"T1: the decision table of Iterator.ReadOne (nil→value, skip→retry, terminating→returned, other→recorded + io.EOF), close-on-error, closed-first, Next tests the flag, doClose once",
-		"X1: the decision table of every producer/processor/transform/reducer loop continues on ErrIteratorSkip and never turns a nil error into a terminating one")
+		"X1: the decision table of every producer/processor/transform/reducer loop continues on ErrIteratorSkip and never turns a nil error into a terminating one",
+		"R1: JSON decoding yields a fresh value per element (no merge of the previous element into the next)")
 	c.R.NotCov = append(c.R.NotCov, "equality of the produced sequence with filter/map/concat/fold on all inputs and operator trees", "JSON round trips", "the values of Producer.Join's state machine")
 	ruleT1(c)
 	ruleX1(c, 10)
+	ruleR1(c, allPkgs, 2)
 }
 
 func checkC04(c *Ctx) {
@@ -216,7 +222,7 @@ func checkC04(c *Ctx) {
 		"B1: no goroutine of the pipeline packages can block on a channel without a ctx.Done()/default way out", "B2: nothing blocks while holding a mutex",
 		"P1b: lazily started background work runs under the iterator's cancellable context", "P2: every pipe fed by a finite input is eventually closed (the consumer reaches io.EOF)",
 		"P3: closing a derived iterator closes its upstream", "T1: Close is idempotent and only cancels (doClose under sync.Once)",
-		"W1-W8/L4 for fun.WaitGroup: the Wait that gates every pipe's close cannot miss the last Done (check and park in one critical section, Add broadcasts at zero)")
+		"E8: the classification stops a worker on every context error (a cancelled generator is not retried for ever)", "W1-W8/L4 for fun.WaitGroup: the Wait that gates every pipe's close cannot miss the last Done (check and park in one critical section, Add broadcasts at zero)")
 	c.R.NotCov = append(c.R.NotCov, "that user functions return", "'promptly' as a time bound", "goroutines parked in sync.Once.Do behind Buffer's Once().Go() (they unwind when the pump ends)")
 	ruleB1(c, pipePkgs, 20)
 	ruleB2(c, pipePkgs, 2)
@@ -226,6 +232,8 @@ func checkC04(c *Ctx) {
 	ruleT1(c)
 	// the pipes are closed by wg.Operation().PostHook(close): a WaitGroup.Wait that can miss the last Done
 	// leaves the output open for ever
+	// a worker that sees a context error must stop: the classification table decides that
+	ruleE8(c)
 	wgOwner := map[string]bool{"fun.WaitGroup": true}
 	condRules(c, wgOwner, map[string]int{"W1": 1, "W2": 1, "W2b": 1, "W3": 1, "W4": 2, "W6": 1, "W8": 1})
 	ruleL4(c, wgOwner, 3)
@@ -430,5 +438,10 @@ func init() {
 		ruleW9(c, pubsubOwners, 0)
 		ruleX7(c)
 		ruleBroker2(c)
+		ruleP4(c, pipePkgs, 0)
+		ruleP5(c)
+		ruleV2(c)
+		ruleR1(c, allPkgs, 0)
+		ruleF9(c)
 	}
 }
